@@ -164,6 +164,13 @@ func c02parse(parts []string, maxCalls int) (out []c02res, reads int, initErr bo
 	return
 }
 
+func c02tail(s string) string {
+	if len(s) > 120 {
+		return "..." + s[len(s)-120:]
+	}
+	return s
+}
+
 func c02segmentations(s string, quick bool) map[string][][]string {
 	m := map[string][][]string{"whole": {{s}}}
 	if quick && len(s) > 100000 {
@@ -211,6 +218,7 @@ func c02checkStreamSel(c *hx.Ctx, ns string, els []c02elem, withClose bool, quic
 			continue
 		}
 		for _, parts := range segs {
+			c.Beat("C02|no-termination|well-formed", fmt.Sprintf("%s (%s, first chunk %d bytes)", in, segName, len(parts[0])))
 			out, _, initErr := c02parse(parts, len(els)+3)
 			c.Step(len(out))
 			c.Eval(fmt.Sprintf("%s|%s|%d|%v", in, segName, len(parts[0]), out))
@@ -291,6 +299,7 @@ func c02checkTotal(c *hx.Ctx, ns string, els []c02elem, thorough bool) {
 	maxCalls := len(els) + 2
 	// truncation at every byte
 	for cut := 0; cut <= len(full); cut++ {
+		c.Beat("C02|no-termination|truncated", fmt.Sprintf("%s truncated at byte %d: %q", in, cut, c02tail(full[:cut])))
 		out, reads, initErr := c02parse([]string{full[:cut]}, maxCalls+3)
 		c.Step(len(out) + 1)
 		c.Eval(fmt.Sprintf("trunc|%s|%d|%v|%v", in, cut, initErr, out))
@@ -352,6 +361,7 @@ func c02checkTotal(c *hx.Ctx, ns string, els []c02elem, thorough bool) {
 				continue
 			}
 			mut := full[:pos] + string([]byte{b}) + full[pos+1:]
+			c.Beat("C02|no-termination|corrupted", fmt.Sprintf("%s with byte %d replaced by %q", in, pos, b))
 			out, reads, _ := c02parse([]string{mut}, maxCalls+3)
 			c.Step(len(out) + 1)
 			c.Eval(fmt.Sprintf("corrupt|%s|%d|%d|%v", in, pos, b, out))
